@@ -1,0 +1,21 @@
+//go:build verif
+
+// Contracts for package embedded, checked by /verif (govc). Comments only.
+package embedded
+
+// ---- split assignment (C16): the embedded splitter creates splits 0..splitCount-1 and deals
+// them round robin over the source runners - split j goes to runner j mod n and to no other.
+//@ func SourceSplitter.Start
+//@   property C16
+//@   nosafety
+//@   requires ckpt == nil && len(s.sourceRunnerIDs) >= 1 && s.splitCount >= 0
+//@   requires forall(0, len(s.sourceRunnerIDs), func(i int) bool { return forall(0, i, func(j int) bool { return s.sourceRunnerIDs[j] != s.sourceRunnerIDs[i] }) })
+//@   atcall AssignSplits: forall(0, s.splitCount, func(j int) bool { return j/len(s.sourceRunnerIDs) < len(arg0[s.sourceRunnerIDs[j%len(s.sourceRunnerIDs)]]) &&
+//@          arg0[s.sourceRunnerIDs[j%len(s.sourceRunnerIDs)]][j/len(s.sourceRunnerIDs)] != nil &&
+//@          arg0[s.sourceRunnerIDs[j%len(s.sourceRunnerIDs)]][j/len(s.sourceRunnerIDs)].SplitId == strconv.Itoa(j) })
+//@   atcall AssignSplits: forall(0, len(s.sourceRunnerIDs), func(r int) bool { return forall(0, len(arg0[s.sourceRunnerIDs[r]]), func(p int) bool {
+//@          return p*len(s.sourceRunnerIDs)+r < s.splitCount && arg0[s.sourceRunnerIDs[r]][p] != nil && arg0[s.sourceRunnerIDs[r]][p].SplitId == strconv.Itoa(p*len(s.sourceRunnerIDs)+r) }) })
+//@   loop 0:
+//@     invariant len(sourceSplits) == s.splitCount && forall(0, idx_, func(j int) bool { return sourceSplits[j] != nil && sourceSplits[j].SplitId == strconv.Itoa(j) })
+//@   loop 1:
+//@     invariant forall(0, idx_, func(r int) bool { return same(assignments[s.sourceRunnerIDs[r]], splitGroups[r]) })
